@@ -117,6 +117,27 @@ func TestVerifC11UploaderServer(t *testing.T) {
 					nonEmpty = true
 				}
 			}
+			// The uploader excludes exactly what the documented semantics exclude: the report holds the approved
+			// part of the week's expired files and nothing from an excluded data set (e.g. a build for an unlisted
+			// GOOS/GOARCH next to a listed build of the same program version).
+			var expired []*vmodel.CountFile
+			for _, f := range scn.Files {
+				if f.Readable() && f.Week() == rep.Week && f.End.Before(scn.Start) {
+					expired = append(expired, f)
+				}
+			}
+			if agg, overflow := vmodel.Aggregate(expired); !overflow {
+				got, _ := vmodel.FromReport(&rep)
+				want := vmodel.Filter(scn.Config, agg, rep.X)
+				for b := range want {
+					if !vmodel.BuildApprovedStrict(scn.Config, b) {
+						delete(want, b) // GOOS/GOARCH outside the configuration's lists
+					}
+				}
+				if d := vmodel.DiffProgs(want, got); d != "" {
+					t.Fatalf("the uploader's report for %s differs from what the configuration semantics approve of the local data: %s\n%s", rep.Week, d, desc)
+				}
+			}
 			accepted = append(accepted, &rep)
 		}
 		// single-item mutations of accepted (or freshly generated approved) reports must be refused
